@@ -55,7 +55,49 @@ class C07(Check):
                    'trailing root components after a second marker are not generated here (see DESIGN C03 scope note)']
 
     def shards(self, tier):
-        return [{'i': i} for i in range(16)]
+        return [{'i': i} for i in range(16)] + [{'i': 16, 'directed': 0}]
+
+    def directed_pair(self):
+        """V1 / V2 by construction: every kind of extension step at nodes that sit off an octet boundary, inside lists,
+        CHOICEs and SETs, each followed by more components (so that a mis-skipped addition shows in what follows)"""
+        import copy
+        from ..asn import Ty, Member, Group, Module, Spec, Rng
+        R = lambda n: Ty('REF', ref=n)
+        m = Module('M', 'AUTOMATIC')
+        m.types = [
+            ('Cx', Ty('CHOICE', root=[Member('a', Ty('INTEGER', rng=Rng(0, 7))), Member('b', Ty('BOOLEAN'))], ext=[])),
+            ('E', Ty('ENUMERATED', enum_root=[('r', 0, False), ('g', 1, False)], enum_ext=[])),
+            ('It', Ty('SEQUENCE', root=[Member('f', Ty('BOOLEAN')), Member('c', R('Cx')), Member('e', R('E')),
+                                        Member('n', Ty('INTEGER', rng=Rng(0, 255)))], ext=[])),
+            ('L', Ty('SEQUENCE OF', elem=R('It'), size=Rng(1, 4))),
+            ('St', Ty('SET', root=[Member('p', Ty('BOOLEAN')), Member('q', R('Cx'), optional=True)], ext=[])),
+            ('Lc', Ty('SEQUENCE OF', elem=R('Cx'), size=Rng(1, 4))),
+            ('T', Ty('SEQUENCE', root=[Member('head', Ty('BOOLEAN')), Member('l', R('L')), Member('lc', R('Lc')),
+                                       Member('s', R('St')), Member('tail', Ty('INTEGER', rng=Rng(0, 7)))])),
+        ]
+        spec1 = Spec([m])
+        spec2 = copy.deepcopy(spec1)
+        t2 = dict(spec2.modules[0].types)
+        t2['Cx'].ext = [Member('c2', Ty('IA5String')), Member('c3', Ty('SEQUENCE', root=[Member('x', Ty('INTEGER'))]))]
+        t2['E'].enum_ext = [('bl', 2, False)]
+        t2['It'].ext = [Member('z', Ty('OCTET STRING'), optional=True),
+                        Group([Member('g1', Ty('BOOLEAN')), Member('g2', Ty('INTEGER'), optional=True)])]
+        t2['St'].ext = [Member('r2', Ty('INTEGER'))]
+        spec1.link()
+        spec2.link()
+        it = lambda c, e, **kw: dict({'f': True, 'c': c, 'e': e, 'n': 200}, **kw)
+        v2s = [
+            {'head': True, 'l': [it(('a', 3), 'r'), it(('c2', 'hello'), 'bl', z=b'\x01\x02', g1=True, g2=-5), it(('a', 3), 'g')],
+             'lc': [('b', True), ('c2', 'x'), ('a', 3), ('c3', {'x': 70000})], 's': {'p': True, 'q': ('c3', {'x': 1}), 'r2': 9},
+             'tail': 5},
+            {'head': False, 'l': [it(('c3', {'x': -1}), 'g', g1=False)], 'lc': [('c2', ''), ('a', 7)],
+             's': {'p': False, 'r2': -300}, 'tail': 0},
+            {'head': True, 'l': [it(('b', False), 'bl')], 'lc': [('a', 1)], 's': {'p': True, 'q': ('a', 2), 'r2': 0}, 'tail': 7},
+        ]
+        v1s = [{'head': True, 'l': [it(('a', 3), 'r'), it(('b', True), 'g')], 'lc': [('a', 0), ('b', False)],
+                's': {'p': True, 'q': ('b', True)}, 'tail': 5},
+               {'head': False, 'l': [it(('a', 7), 'g')], 'lc': [('b', True)], 's': {'p': False}, 'tail': 1}]
+        return spec1, spec2, ['directed'], [('M', 'T', v2s, v1s)]
 
     def cross(self, rec, spec1, spec2, c1, c2, codec, modname, name, v2s, v1s, log):
         t1 = dict(spec1.by_name[modname].types)[name]
@@ -118,6 +160,17 @@ class C07(Check):
     def run_shard(self, shard, tier, seed, rec):
         scale = float(os.environ.get('ASN1V_SCALE', '1'))
         n = max(1, int((18 if tier == "quick" else 500) * scale))
+        if 'directed' in shard:
+            if not shard.get('_shrink'):
+                spec1, spec2, log, items = self.directed_pair()
+                rec.cases += 1
+                rec.cls('directed-cases')
+                for codec in CODECS:
+                    c1 = asn1tools.compile_string(spec1.text(), codec)
+                    c2 = asn1tools.compile_string(spec2.text(), codec)
+                    for modname, name, v2s, v1s in items:
+                        self.cross(rec, spec1, spec2, c1, c2, codec, modname, name, v2s, v1s, log)
+            return
 
         def body(case, rec):
             spec1, spec2, log, items = case
